@@ -105,6 +105,47 @@ def pre(k0: int, k1: int, k2: int, k3: int, per_line: bool, split: int) -> bool:
     return 0 <= split <= n
 
 
+def blank_tail(k0: int, k1: int, k2: int, blanks: int) -> bool:
+    """
+    pre: 0 <= k0 <= 2 and 0 <= k1 <= 2 and 0 <= k2 <= 2 and 0 <= blanks <= 2
+    post: _
+    """
+    path_tick()
+    return scenario_blank([k0, k1, k2], blanks) is None
+
+
+def scenario_blank(kinds: list[int], blanks: int) -> Optional[str]:
+    """one-JSON-per-line file holding ONE document followed by 0..2 blank lines: every valid record exactly once"""
+    recs = [record(i, k) for i, k in enumerate(kinds)]
+    FILES.clear()
+    FILES["/d/a.json"] = json.dumps({"records": recs}) + "\n" + "\n" * blanks
+    src = jds.JSONDataSource.__new__(jds.JSONDataSource)
+    src.config = _Cfg(True)  # type: ignore[assignment]
+    src.current_file_index = 0
+    src.current_parser = None
+    src.file_list = ["/d/a.json"]
+    src.compiled_jq = None
+    src.file_pbar = src.events_pbar = src.event_error_pbar = _Bar()  # type: ignore[assignment]
+    saved = (getattr(jds, "open", None), jds.generate_records_from_compiled_jq)
+    jds.open = fake_open  # type: ignore[attr-defined]
+    jds.generate_records_from_compiled_jq = lambda data, cj: iter(data["records"])  # type: ignore[assignment]
+    try:
+        try:
+            got = [e.event_id for e in src]
+        except Exception as e:  # noqa
+            return f"iteration raised {type(e).__name__}: {e}"
+    finally:
+        if saved[0] is None:
+            del jds.open  # type: ignore[attr-defined]
+        else:
+            jds.open = saved[0]  # type: ignore[attr-defined]
+        jds.generate_records_from_compiled_jq = saved[1]  # type: ignore[assignment]
+    want = [f"e{i}" for i, k in enumerate(kinds) if k == 0]
+    if got != want:
+        return f"yielded spans {got}, valid records are {want} (one document line followed by {blanks} blank lines)"
+    return None
+
+
 def separators(sep: int, split: int) -> bool:
     """
     pre: 0 <= sep < 11 and 0 <= split <= 3
@@ -132,6 +173,9 @@ def twin(k0: int, k1: int, k2: int, k3: int, per_line: bool, split: int) -> bool
 
 
 def replay(args: list[Any], c: dict[str, Any]) -> dict[str, Any]:
+    if c.get("kind") == "blank":
+        msg = scenario_blank([int(a) for a in args[:3]], int(args[3]))
+        return {"violates": msg is not None, "sig": "record-skip", "what": msg or "ok"}
     if c.get("kind") == "separators":
         msg = scenario([0, 0, 0], True, int(args[1]), int(args[0])) or scenario([0, 0, 0], False, int(args[1]), int(args[0]))
         return {"violates": msg is not None, "sig": "record-skip", "what": (msg or "ok") + f" [character {SEPS[int(args[0])]!r} inside a string leaf]"}
